@@ -95,7 +95,7 @@ pub fn run(cli: Cli) -> ! {
             return;
         }
         let viols = crate::c15::limiter_fairness_through_listener();
-        rep.set("histories_through_the_real_listener", json!(14));
+        rep.set("histories_through_the_real_listener", json!(18));
         for (key, text, replay) in viols.into_iter().chain(admissions_of_connections_that_end_badly()) {
             rep.violation(Violation { key, text, replay, weight: 60 });
         }
